@@ -310,6 +310,8 @@ impl Prop for C04 {
         enum G {
             F(Vec<Free>),
             C(Vec<InLine>),
+            /// a rendered section that is not a diff: `rg --json` records (handled whoever called delta)
+            R(Vec<u8>),
         }
         let mut groups: Vec<G> = Vec::new();
         // (side-by-side raises the effective limit so that wrapped rows fit)
@@ -333,6 +335,8 @@ impl Prop for C04 {
             G::F(v)
         };
 
+        let mut last_hunkless = false;
+        let mut after_hunkless: std::collections::BTreeSet<usize> = std::collections::BTreeSet::new();
         let mut go = GenOpts::default_full();
         go.max_hunks = 2;
         go.max_lines = 5;
@@ -343,10 +347,42 @@ impl Prop for C04 {
             0 => groups.push(free_block(t, &mut sentinel)),
             _ => {
                 groups.push(free_block(t, &mut sentinel));
+                if t.chance(1, 4) {
+                    // an `rg --json` section, then text such as rg's diagnostics (`rg: ./x: Permission
+                    // denied`) or a wrapper script's output: shaped like `word:rest`, but nobody ran grep
+                    groups.push(G::R(crate::gen::other::rg_json_stream(t)));
+                    let mut b = free_block(t, &mut sentinel);
+                    if let G::F(v) = &mut b {
+                        for f in v.iter_mut() {
+                            if !f.bytes.is_empty() && !f.trunc && f.bytes.len() + 12 < mll.max(1) && t.coin() {
+                                let pre = t.ps(&["rg: ", "warning: ", "./a/b.rs: ", "note-", "x.rs:12:", "total=", "src/main.rs-3-"]).as_bytes().to_vec();
+                                f.bytes = [pre.clone(), f.bytes.clone()].concat();
+                                f.expected = [pre, f.expected.clone()].concat();
+                                f.special = true;
+                            }
+                        }
+                    }
+                    groups.push(b);
+                    ctx.class("text-after-rg-json-section");
+                }
                 let ncommits = t.range(1, 3);
+                // `git log --oneline -p`: a commit is introduced by one line of free text
+                // (`1a2b3c4 subject`, the hash coloured or not) directly after the previous commit's diff
+                let oneline = t.chance(1, 4);
+                ctx.class_if(oneline, "one-line-commit-headers");
                 for ci in 0..ncommits {
                     // commit line (a construct), then free metadata/message, then sections
-                    if mode == 2 || ci > 0 {
+                    if (mode == 2 || ci > 0) && oneline {
+                        sentinel += 1;
+                        let hash = crate::gen::text::hex(t, 7);
+                        let subject = crate::gen::text::code_tokens(t, 3, &TextOpts { allow_markerlike: false, allow_tabs: false, allow_long: false, ..TextOpts::all() });
+                        let line = if t.coin() { format!("\x1b[33m{}\x1b[m ⟦{}⟧ {}", hash, sentinel, subject) } else { format!("{} ⟦{}⟧ {}", hash, sentinel, subject) };
+                        if last_hunkless {
+                            after_hunkless.insert(sentinel);
+                        }
+                        let b = line.into_bytes();
+                        groups.push(G::F(vec![Free { bytes: b.clone(), expected: b, special: true, trunc: false }]));
+                    } else if mode == 2 || ci > 0 {
                         let c = gen_commit(t, &[]);
                         groups.push(G::C(vec![InLine { text: format!("commit {}{}", c.hash, c.decoration), role: Role::CommitLine }]));
                         groups.push(free_block(t, &mut sentinel));
@@ -367,6 +403,7 @@ impl Prop for C04 {
                         // re-render headers (line counts unchanged)
                         render_section(&s, n_sections, &mut ls);
                         n_sections += 1;
+                        last_hunkless = !s.kind.has_hunks() || s.hunks.is_empty();
                     }
                     groups.push(G::C(ls));
                 }
@@ -390,6 +427,7 @@ impl Prop for C04 {
                     }
                 }
                 G::C(ls) => input.extend_from_slice(&lines_to_bytes(ls, true)),
+                G::R(b) => input.extend_from_slice(b),
             }
         }
         for g in &groups {
@@ -458,6 +496,7 @@ impl Prop for C04 {
             let vis = term::visible_text(&out);
             let mut last_free_sentinel_pos = 0usize;
             let mut s_no = 0usize;
+            let mut deferred: Option<Failure> = None;
             for g in &groups {
                 match g {
                     G::F(v) => {
@@ -469,6 +508,16 @@ impl Prop for C04 {
                             let found = out_lines[pos..].iter().position(|l| *l == &f.expected[..]);
                             match found {
                                 Some(k) => pos += k + 1,
+                                None if after_hunkless.contains(&s_no) => {
+                                    // the listed finding KF-C04-1: remembered, reported last
+                                    if let Verdict::Fail(mut fl) = fail("free-line-altered-or-lost", format!("the one-line commit header `{}` (git log --oneline -p) that follows a file section without hunks (mode change, binary, empty or purely renamed file) is not written at all: it is taken for one more line of that section's header block", exec::printable(&f.bytes))) {
+                                        fl.traits.push("one-line-commit-header-after-hunkless-section".to_string());
+                                        if deferred.is_none() {
+                                            deferred = Some(fl);
+                                        }
+                                    }
+                                    continue;
+                                }
                                 None => {
                                     let anywhere = out_lines.iter().filter(|l| **l == &f.expected[..]).count();
                                     let sent = format!("⟦{}⟧", s_no);
@@ -488,6 +537,7 @@ impl Prop for C04 {
                             }
                         }
                     }
+                    G::R(_) => {}
                     G::C(ls) => {
                         // sentinels of this construct lie after the preceding free block
                         for l in ls {
@@ -508,6 +558,9 @@ impl Prop for C04 {
             }
             // the construct groups' sentinels must also precede the following free block: checked
             // by `pos` advancing monotonically over free lines and the visible positions above
+            if let Some(f) = deferred {
+                return Verdict::Fail(f);
+            }
         }
         if any_special && (mode == 0 || n_sections > 0) {
             let mut h = fnv(&input);
